@@ -220,6 +220,14 @@ func (evkg EvaluationKeyGenProtocol) AggregateShares(share1, share2 EvaluationKe
 		return fmt.Errorf("cannot AggregateShares: share LevelP do not match")
 	}
 
+	if share1.BaseTwoDecomposition != share2.BaseTwoDecomposition || share1.BaseTwoDecomposition != share3.BaseTwoDecomposition {
+		return fmt.Errorf("cannot AggregateShares: share BaseTwoDecomposition do not match")
+	}
+
+	if !slices.Equal(share1.BaseTwoDecompositionVectorSize(), share2.BaseTwoDecompositionVectorSize()) || !slices.Equal(share1.BaseTwoDecompositionVectorSize(), share3.BaseTwoDecompositionVectorSize()) {
+		return fmt.Errorf("cannot AggregateShares: share BaseTwoDecompositionVectorSize do not match")
+	}
+
 	m1 := share1.Value
 	m2 := share2.Value
 	m3 := share3.Value
@@ -250,6 +258,14 @@ func (evkg EvaluationKeyGenProtocol) GenEvaluationKey(share EvaluationKeyGenShar
 
 	if share.LevelP() != evk.LevelP() {
 		return fmt.Errorf("cannot GenEvaluationKey: share LevelP != evk LevelP")
+	}
+
+	if share.BaseTwoDecomposition != evk.BaseTwoDecomposition {
+		return fmt.Errorf("cannot GenEvaluationKey: share BaseTwoDecomposition != evk BaseTwoDecomposition")
+	}
+
+	if !slices.Equal(share.BaseTwoDecompositionVectorSize(), evk.BaseTwoDecompositionVectorSize()) || !slices.Equal(share.BaseTwoDecompositionVectorSize(), crp.BaseTwoDecompositionVectorSize()) {
+		return fmt.Errorf("cannot GenEvaluationKey: share, crp and evk BaseTwoDecompositionVectorSize do not match")
 	}
 
 	m := share.Value
